@@ -158,4 +158,17 @@ def check_valid(pc, goal, cfg, inputs=()):
         if s.check() == z3.sat:
             return Res("sat", model=extract_model(s.model(), inputs), backend="z3-5.1")
         return Res("sat", model=None, backend="cvc5-1.0.3" if r2 == "sat" else "z3-4.8.12")
+    # last resort before "undecided": a fresh solver object (the sequence solver degrades after a timeout), another seed,
+    # three times the budget.  Verdicts must not flip because the machine is busy.
+    s2 = z3.Solver()
+    s2.set("timeout", cfg.check_timeout_ms * 3)
+    s2.set("random_seed", 7)
+    for a in pc:
+        s2.add(a)
+    s2.add(z3.Not(goal))
+    r4 = s2.check()
+    if r4 == z3.unsat:
+        return Res("unsat", backend="z3-5.1(retry)")
+    if r4 == z3.sat:
+        return Res("sat", model=extract_model(s2.model(), inputs), backend="z3-5.1(retry)")
     return Res("unknown", backend="z3-5.1+cvc5+z3-4.8", detail=detail)
